@@ -437,10 +437,22 @@ fn color_styles(
 
 fn split_lines(styled: &[(anstyle::Style, String)]) -> Vec<Vec<(anstyle::Style, &str)>> {
     let mut lines = Vec::new();
-    let mut current_line = Vec::new();
+    let mut current_line: Vec<(anstyle::Style, &str)> = Vec::new();
     for (style, mut next) in styled.iter().map(|(s, t)| (*s, t.as_str())) {
         while let Some((current, remaining)) = next.split_once('\n') {
-            let current = current.strip_suffix('\r').unwrap_or(current);
+            let current = match current.strip_suffix('\r') {
+                Some(current) => current,
+                None => {
+                    if current.is_empty() {
+                        // The `\r` of this `\r\n` may have ended the previous styled fragment
+                        let previous = current_line.iter_mut().rev().find(|(_, t)| !t.is_empty());
+                        if let Some((_, last)) = previous {
+                            *last = last.strip_suffix('\r').unwrap_or(last);
+                        }
+                    }
+                    current
+                }
+            };
             current_line.push((style, current));
             lines.push(current_line);
             current_line = Vec::new();
